@@ -337,6 +337,50 @@ static int latedge_run(int P, unsigned seed, int n, int rounds) {
     return 0;
 }
 
+// mode "greset": a graph is run, reset (graph::reset with rf_reset_protocol / rf_reset_bodies; after a normal run, after a cancellation, after an exception) and run again:
+// the second run behaves like the first - a continue_node with k predecessors connected by edges fires once per k signals, a limiter's continue_msg decrementer still counts,
+// a function_node / queue pipeline delivers everything once.   output: CONT a (continue_node firings wrong) LIM b FLOW c
+static int greset_run(unsigned seed) {
+    std::mt19937 r(seed);
+    long contbad = 0, limbad = 0, flowbad = 0;
+    for (int variant = 0; variant < 6; ++variant) {
+        int k = 2 + (int)(r() % 3);
+        graph g; std::atomic<int> fired{0}, bran{0};
+        broadcast_node<continue_msg> start(g);
+        std::vector<std::unique_ptr<continue_node<continue_msg>>> mids;
+        continue_node<continue_msg> join(g, [&](const continue_msg&) { fired++; return continue_msg(); });
+        for (int i = 0; i < k; ++i) {
+            mids.emplace_back(new continue_node<continue_msg>(g, [&, i, variant](const continue_msg&) { bran++; if (variant == 4 && i == 0 && bran.load() <= (int)mids.size()) throw 5; return continue_msg(); }));
+            make_edge(start, *mids.back()); make_edge(*mids.back(), join);
+        }
+        auto round = [&](int expect_fired) { int f0 = fired.load(); start.try_put(continue_msg()); try { g.wait_for_all(); } catch (...) {} return fired.load() - f0 == expect_fired; };
+        if (variant == 3) { g.cancel(); try { g.wait_for_all(); } catch (...) {} }
+        else if (variant == 4) { round(0); }                       // one middle node throws: the graph is cancelled
+        else if (!round(1)) contbad++;
+        switch (variant % 3) { case 0: g.reset(); break; case 1: g.reset(rf_reset_bodies); break; default: g.reset(rf_reset_protocol); break; }
+        if (!round(1)) contbad++;
+        if (!round(1)) contbad++;
+    }
+    {   // limiter_node with a continue_msg decrementer connected by an edge
+        graph g; std::atomic<int> got{0};
+        limiter_node<int> lim(g, 2); function_node<int, continue_msg> f(g, serial, [&](int) { got++; return continue_msg(); });
+        make_edge(lim, f); make_edge(f, lim.decrementer());
+        auto feed = [&] { for (int i = 0; i < 6; ++i) { for (int tries = 0; tries < 1000 && !lim.try_put(i); ++tries) g.wait_for_all(); } g.wait_for_all(); };   // a refused put is repeated once the body has decremented
+        feed();
+        int g0 = got.load(); g.reset(); feed();
+        if (g0 != 6 || got.load() != 12) limbad++;
+    }
+    {   // queue -> function pipeline
+        graph g; std::atomic<int> got{0};
+        queue_node<int> q(g); function_node<int, int> f(g, 1, [&](int v) { got++; return v; }); make_edge(q, f);
+        for (int i = 0; i < 20; ++i) q.try_put(i); g.wait_for_all();
+        g.reset(rf_reset_bodies); for (int i = 0; i < 20; ++i) q.try_put(i); g.wait_for_all();
+        if (got.load() != 40) flowbad++;
+    }
+    std::printf("CONT %ld LIM %ld FLOW %ld\n", contbad, limbad, flowbad);
+    return 0;
+}
+
 int main(int argc, char** argv) {
     std::string mode = argc > 1 ? argv[1] : "";
     if (mode == "seq") {
@@ -352,6 +396,7 @@ int main(int argc, char** argv) {
         return 0;
     }
     if (mode == "mtmix") return mtmix_run(atoi(argv[2]), (unsigned)atoi(argv[3]), atoi(argv[4]), atoi(argv[5]), atoi(argv[6]));
+    if (mode == "greset") return greset_run((unsigned)atoi(argv[3]));
     if (mode == "latedge") return latedge_run(atoi(argv[2]), (unsigned)atoi(argv[3]), atoi(argv[4]), atoi(argv[5]));
     if (mode == "zoo") return zoo_run(atoi(argv[2]), (unsigned)atoi(argv[3]), atoi(argv[4]));
     if (mode == "mtpull") return mtpull_run(atoi(argv[2]), (unsigned)atoi(argv[3]), atoi(argv[4]), atoi(argv[5]));
